@@ -488,7 +488,12 @@ fn choose(
                     .map(|(ci, _)| ci)
                     .collect();
                 if mine.is_empty() {
-                    // preferred actor has nothing to do (finished or waiting): move on
+                    // the preferred actor may be waiting for one of the library-internal
+                    // scheduling points (actor 0): release those first, without charging the segment
+                    if let Some(ci) = cands.iter().position(|(_, k)| k.actor == 0) {
+                        return Ok(ci);
+                    }
+                    // preferred actor has nothing to do (finished or blocked on the other): move on
                     let _ = segs.remove(0);
                     *segment_left = None;
                     continue;
